@@ -37,9 +37,15 @@
 //! finish, one-shot, multi, work pool) the process heap must return to its level before the call
 //! (blocks and bytes) → `ledger:default-alloc-leak:<scenario>`.
 //!
+//! **IR-logging family** (kind 7, `irlog_case`): `log_meta_block` on, the analysis passes of `LogMetaBlock` walked over
+//! their whole option grid (stride_detection_quality 0..4, high_entropy_detection_quality 0..2,
+//! cdf_adaptation_detection 0..4, prior_bitmask_detection 0/1, literal_adaptation), quality 2..11, piecewise i.i.d.
+//! inputs of 100..400 KiB with many literal block types per meta-block (`gen_piecewise`), through the streaming API
+//! (oracle after every call) and the copy functions BrotliCompressCustomAlloc / BrotliCompressCustomIoCustomDict.
+//!
 //! Non-trivial case = at least one block was allocated (multi-threaded: every per-thread allocator
 //! was used).  Regression corpus = the minimal reproductions of the defects found with this engine,
-//! in code (`d9_*`), run first.  `bvh ledger d9` prints them; `bvh ledger only <kind 1..6>` runs one
+//! in code (`d9_*`), run first.  `bvh ledger d9` prints them; `bvh ledger only <kind 1..7>` runs one
 //! family.  Every random choice comes from `Rng::new(seed ^ kind ^ index)`.
 use crate::prng::Rng;
 use crate::util::*;
@@ -1164,6 +1170,167 @@ fn ffi_multi_case(seed: u64, _thorough: bool) -> (Vec<(String, String)>, Report)
 }
 
 // ---------------------------------------------------------------------------------------------
+// IR-logging option structures (LogMetaBlock: StrideEval / PriorEval / EntropyTally / EntropyPyramid /
+// ContextMapEntropy / CommandQueue) on inputs with many literal block types per meta-block
+// ---------------------------------------------------------------------------------------------
+
+/// piecewise i.i.d. input: segments of 0.6..12 KiB, each drawn uniformly from its own alphabet (2..64 symbols at a
+/// random base, a few alphabets recur), so that the block splitters (greedy at quality 4..9, BrotliSplitBlock at 10/11)
+/// cut the literals of one meta-block into many blocks of several types: the evaluators of the IR logger see a long
+/// sequence of block switches (StrideEval doubles its score array from the 4th switch on)
+pub fn gen_piecewise(r: &mut Rng, n: usize) -> Vec<u8> {
+    let mut v = Vec::with_capacity(n + 16);
+    let nalpha = 3 + r.below(6) as usize;
+    let alphas: Vec<(u8, u64)> = (0..nalpha).map(|_| { let wide = r.chance(1, 3); (r.next() as u8, 2 + r.below(if wide { 63 } else { 14 })) }).collect();
+    while v.len() < n {
+        let (base, k) = alphas[r.below(nalpha as u64) as usize];
+        let long = r.chance(1, 4);
+        let seg = 600 + r.below(if long { 12000 } else { 3500 }) as usize;
+        let stride = 1 + 2 * r.below(4) as u8;
+        for _ in 0..seg { v.push(base.wrapping_add((r.below(k) as u8).wrapping_mul(stride))); }
+    }
+    v.truncate(n);
+    v
+}
+
+/// one case of the IR-logging family: `idx` walks the option grid deterministically (stride_detection_quality
+/// idx % 5, high_entropy_detection_quality (idx / 5) % 3, cdf_adaptation_detection (idx / 15) % 5 folded with the seed,
+/// prior_bitmask_detection), quality 2..11, literal_adaptation set in 2 of 3 cases; entry point idx % 3:
+/// streaming API (oracle after EVERY call), BrotliCompressCustomAlloc, BrotliCompressCustomIoCustomDict + callback
+fn irlog_case(seed: u64, idx: u64, thorough: bool) -> (Vec<(String, String)>, Report) {
+    let mut rep = Report::default();
+    let mut r = Rng::new(seed);
+    let stride = (idx % 5) as u32;
+    let he = ((idx / 5) % 3) as u32;
+    let cdf = ((idx / 15 + r.below(5)) % 5) as u32;
+    let prior = ((idx / 3 + r.below(2)) % 2) as u32;
+    let q = *r.pick(&[2u32, 3, 4, 5, 5, 6, 7, 8, 9, 9, 10, 11]);
+    let lgwin = if q >= 10 { 16 + r.below(3) as u32 } else { 16 + r.below(7) as u32 };
+    let n = if q >= 10 { (100usize << 10) + r.below(if thorough { 100 << 10 } else { 30 << 10 }) as usize } else { (100usize << 10) + r.below(300 << 10) as usize };
+    let data = gen_piecewise(&mut r, n);
+    let adapt: Option<[u32; 4]> = if r.chance(2, 3) { Some([*r.pick(&[1u32, 2, 4, 16, 64]), *r.pick(&[1024u32, 2048, 8192, 16384]), *r.pick(&[1u32, 2, 8, 32]), *r.pick(&[1024u32, 4096, 16384])]) } else { None };
+    let which = idx % 3;
+    let cfg = Cfg { q, lgwin, catable: false, appendable: false, magic: false, log_mb: true, large: false, size_hint: 0, lgblock: if r.chance(1, 4) { 18 + r.below(5) as u32 } else { 0 }, dict: 0, prehash: false, middict: false, favor: false, ir: [stride, he, cdf, prior] };
+    let case = format!("{{\"engine\":\"ledger\",\"kind\":\"irlog\",\"seed\":{},\"idx\":{},\"entry\":{},\"n\":{},\"adapt\":{:?},\"cfg\":{}}}", seed, idx, which, n, adapt.map(|a| a.to_vec()).unwrap_or_default(), cfg.json());
+    rep.count(&format!("irlog.stride_detection_quality{}", stride));
+    rep.count(&format!("irlog.high_entropy_detection_quality{}", he));
+    rep.count(&format!("irlog.cdf_adaptation_detection{}", cdf));
+    rep.count(&format!("irlog.prior_bitmask_detection{}", prior));
+    rep.count(&format!("irlog.q{}", q));
+    rep.count(["irlog.entry.stream", "irlog.entry.custom_alloc", "irlog.entry.custom_io_callback"][which as usize]);
+    if adapt.is_some() { rep.count("irlog.literal_adaptation_set"); }
+    let mut lines = vec![];
+    // growth of StrideEval::score: an f32 block of 64 << k elements (it starts at 32 and doubles)
+    let grew = |evs: &[Ev]| evs.iter().filter(|e| e.kind == 'A' && e.ty == "f32" && e.len >= 64 && e.len.is_power_of_two()).count() as u64;
+    if which == 0 {
+        let res = std::panic::catch_unwind(std::panic::AssertUnwindSafe(|| {
+            let mut inst = RustInst::new();
+            inst.log_mb = true;
+            brotli::enc::encode::verif_stream_hook::set_book(true);
+            drop(brotli::enc::encode::verif_stream_hook::take_book());
+            let mut t = Tracker::new();
+            let mut sc = Scn { toks: vec![], ans: vec![], calls: 0, failed: 0, grew: [0; NSLOT], repl: [0; NSLOT] };
+            let o = inst.observe();
+            record(&mut t, "cr", &o, &mut sc, &mut rep, &case, None);
+            cfg.apply(&mut inst);
+            if let Some(a) = adapt {
+                use BrotliEncoderParameter::*;
+                inst.set_param(BROTLI_PARAM_SPEED, a[0]); inst.set_param(BROTLI_PARAM_SPEED_MAX, a[1]);
+                inst.set_param(BROTLI_PARAM_CM_SPEED, a[2]); inst.set_param(BROTLI_PARAM_CM_SPEED_MAX, a[3]);
+            }
+            // 1..4 calls: PROCESS / FLUSH chunks, then FINISH with the rest
+            let ncalls = 1 + r.below(4) as usize;
+            let mut pos = 0usize;
+            for k in 0..ncalls {
+                let last = k + 1 == ncalls;
+                let chunk = if last { data.len() - pos } else { (data.len() - pos) / (ncalls - k) };
+                let op = if last { 2 } else if r.chance(1, 3) { 1 } else { 0 };
+                let mut guard = 0;
+                let end = pos + chunk;
+                loop {
+                    let (ok, c, _p) = inst.compress(op, &data[pos..end], 2 * chunk + 4096);
+                    sc.calls += 1;
+                    pos += c;
+                    let o = inst.observe();
+                    record(&mut t, "cs", &o, &mut sc, &mut rep, &case, None);
+                    guard += 1;
+                    if !ok { sc.failed += 1; break; }
+                    if pos >= end || guard > 8 { break; }
+                }
+            }
+            let fin = inst.finished();
+            let g = grew(&inst.led.events_from(0));
+            inst.destroy();
+            let o = inst.observe();
+            record(&mut t, "cl", &o, &mut sc, &mut rep, &case, None);
+            let led = inst.led.clone();
+            let ir = inst.ir_calls;
+            let mut extra = std::mem::take(&mut inst.cq);
+            extra.extend(std::mem::take(&mut inst.sk));
+            brotli::enc::encode::verif_stream_hook::set_book(false);
+            drop(brotli::enc::encode::verif_stream_hook::take_book());
+            drop(inst);
+            let (a, f, x, d) = led.counts();
+            if led.live_count() != 0 || d != 0 { rep.violation("ledger:rust-inst-leak", &format!("IR-logging stream: after BrotliEncoderDestroyInstance + drop: {} live, {} dropped without free_cell (alloc {}, free {})", led.live_count(), d, a, f), case.clone()); }
+            if x != 0 { rep.violation("ledger:rust-inst-foreign", &format!("{} frees went through another allocator instance", x), case.clone()); }
+            (format!("ledger inst rust {} {}", cfg.q, sc.toks.join(" ")), sc.ans.join(" "), extra, ir, g, fin, sc.failed)
+        }));
+        rep.evaluations += 1;
+        match res {
+            Ok((a, b, extra, ir, g, fin, failed)) => {
+                if a.len() < 60000 { lines.push((a, b)); }
+                for l in extra.into_iter().take(4) { lines.push(l); }
+                if ir > 0 { rep.nontrivial += 1; rep.add("irlog.meta_blocks_logged", ir); }
+                if g > 0 { rep.count("irlog.stride_score_grew.cases"); rep.add("irlog.stride_score_grew.doublings", g); }
+                if !fin || failed > 0 { rep.count("irlog.stream_not_finished"); }
+            }
+            Err(_) => { rep.count("irlog.panic"); rep.violation("ledger:panic", "panic inside an IR-logging streaming history", case.clone()); }
+        }
+    } else {
+        let (alloc, led) = CAlloc::new();
+        let mut params = brotli::enc::BrotliEncoderParams::default();
+        params.quality = q as i32;
+        params.lgwin = lgwin as i32;
+        if cfg.lgblock != 0 { params.lgblock = cfg.lgblock as i32; }
+        params.log_meta_block = true;
+        params.stride_detection_quality = stride as u8;
+        params.high_entropy_detection_quality = he as u8;
+        params.cdf_adaptation_detection = cdf as u8;
+        params.prior_bitmask_detection = prior as u8;
+        if let Some(a) = adapt { params.literal_adaptation = [(a[0] as u16, a[1] as u16), (a[0] as u16, a[1] as u16), (a[2] as u16, a[3] as u16), (a[2] as u16, a[3] as u16)]; }
+        let mut ir = 0u64;
+        let res = std::panic::catch_unwind(std::panic::AssertUnwindSafe(|| {
+            let mut rd = FaultyR { data: data.clone(), pos: 0, fail_at: usize::MAX, max_per_call: *r.pick(&[4096usize, 1 << 16, 1 << 20]), interrupted: false };
+            let mut w = FaultyW { budget: usize::MAX, mode: 0, got: 0, max_per_call: 1 << 20 };
+            let mut ib = vec![0u8; *r.pick(&[4096usize, 65536, 1 << 18])];
+            let mut ob = vec![0u8; *r.pick(&[4096usize, 65536])];
+            if which == 1 {
+                brotli::BrotliCompressCustomAlloc(&mut rd, &mut w, &mut ib, &mut ob, &params, alloc).is_ok()
+            } else {
+                let mut cb = |_a: &mut brotli::interface::PredictionModeContextMap<brotli::InputReferenceMut>, _b: &mut [brotli::interface::StaticCommand], _c: brotli::InputPair, _d: &mut CAlloc| { ir += 1; };
+                brotli::BrotliCompressCustomIoCustomDict(&mut brotli::IoReaderWrapper(&mut rd), &mut brotli::IoWriterWrapper(&mut w), &mut ib, &mut ob, &params, alloc, &mut cb, &[], std::io::Error::new(std::io::ErrorKind::UnexpectedEof, "eof")).is_ok()
+            }
+        }));
+        rep.evaluations += 1;
+        let (a, _f, _x, _d) = led.counts();
+        if a > 0 { rep.nontrivial += 1; }
+        if ir > 0 { rep.add("irlog.meta_blocks_logged", ir); }
+        let g = grew(&led.events_from(0));
+        if g > 0 { rep.count("irlog.stride_score_grew.cases"); rep.add("irlog.stride_score_grew.doublings", g); }
+        match res {
+            Err(_) => { rep.count("irlog.panic"); rep.violation("ledger:adapter-panic", &format!("IR-logging copy function panicked; {} block(s) live, counts {:?}", led.live_count(), led.counts()), case.clone()); }
+            Ok(ok) => {
+                if !ok { rep.count("irlog.copy_returned_error"); }
+                let cls = judge(&[led.clone()], &mut rep, "ledger:copy", &case, None);
+                lines.push((format!("ledger ep copy q{} err0", q), cls));
+                if let Some(l) = log_line(&[led]) { lines.push(l); }
+            }
+        }
+    }
+    (lines, rep)
+}
+
+// ---------------------------------------------------------------------------------------------
 // default allocator of the C ABI (alloc_func = NULL): observed through a counting #[global_allocator]
 // ---------------------------------------------------------------------------------------------
 // The wrapper is a pass-through to `System` for every engine; it only counts while `G_ON` is set, and that
@@ -1340,7 +1507,7 @@ pub fn run_cmd(args: &Args) {
     }
     run_gchildren(seed, if thorough { 8 } else { 2 }, 40, &mut rep);
     let m = if thorough { 8 } else { 1 };
-    let plan: Vec<(u64, usize)> = vec![(1, 660 * m), (2, 360 * m), (3, 520 * m), (4, 240 * m), (5, 240 * m), (6, 160 * m)];
+    let plan: Vec<(u64, usize)> = vec![(7, 90 * m), (1, 660 * m), (2, 360 * m), (3, 520 * m), (4, 240 * m), (5, 240 * m), (6, 160 * m)];
     let only: Option<u64> = if args.rest.first().map(|s| s.as_str()) == Some("only") { args.rest.get(1).and_then(|x| x.parse().ok()) } else { None };
     let mut tasks: Vec<(u64, u64)> = vec![];
     for (kind, n) in &plan { if only.is_some() && only != Some(*kind) { continue; } for i in 0..*n { tasks.push((*kind, i as u64)); } }
@@ -1350,7 +1517,7 @@ pub fn run_cmd(args: &Args) {
     let results = par_tasks(tasks.len(), move |i| {
         let (kind, idx) = tk[i];
         let s = seed ^ (kind << 56) ^ (idx << 20) ^ 0x1ed9e5;
-        let r = match kind { 1 => rust_instance_case(s, thorough), 2 => ffi_instance_case(s, thorough), 3 => adapter_case(s, thorough), 4 => oneshot_case(s, thorough), 5 => multi_case(s, thorough), _ => ffi_multi_case(s, thorough) };
+        let r = match kind { 1 => rust_instance_case(s, thorough), 2 => ffi_instance_case(s, thorough), 3 => adapter_case(s, thorough), 4 => oneshot_case(s, thorough), 5 => multi_case(s, thorough), 7 => irlog_case(s, idx, thorough), _ => ffi_multi_case(s, thorough) };
         drop(brotli::enc::encode::verif_stream_hook::take()); // per-thread event log of the stream hook
         r
     });
